@@ -116,7 +116,7 @@ def jobs_for(chk):
         nth = len(lay)
         for fast in (0, 1):
             for fresh in ((0, 3) if nth >= 4 else (0, 2, 3) if (nth == 3 and not chk.thorough) else (0, 1, 2, 3)):
-                for scr in (SCRIPTS22 if (nth < 3 or chk.thorough) else SCRIPTS22[:3] if nth >= 4 else SCRIPTS22[:4]):
+                for scr in (SCRIPTS22 if (nth < 3 or chk.thorough) else (SCRIPTS22[:3] if fresh == 0 else SCRIPTS22[:1]) if nth >= 4 else SCRIPTS22[:4]):
                     ex.append(("2+2", (fast, fresh, 1 if (fresh == 3 and scr == []) else 0, scr, lay), 4 if nth >= 4 else 1))
         for (fast, fresh, oncb, scr) in ((0, 0, 0, [0, 4]), (1, 0, 0, [4, 0]), (0, 5, 0, []), (0, 0, 2, [])) + (((1, 3, 3, [0, 6]), (0, 6, 0, [2])) if nth < 4 else ()):
             ex.append(("2+2", (fast, fresh, oncb, scr, lay), 4 if nth >= 4 else 1))
@@ -126,7 +126,7 @@ def jobs_for(chk):
                 for fresh in ((0, 3) if len(lay) < 4 else (0,)):
                     for scr in SCRIPTS33[:3]:
                         ex.append(("3+3", (fast, fresh, 0, scr, lay), 64 if len(lay) >= 4 else 16))
-    nsample = 6000 if chk.thorough else 1200
+    nsample = 6000 if chk.thorough else 1000
     for lay in L33:
         for fast in (0, 1):
             for fresh in (0, 3):
